@@ -761,13 +761,13 @@ func (r *realm) metaProcedureHandler() {
 		case *wamp.Invocation:
 			metaProcHandler, ok := r.metaProcMap[msg.Registration]
 			if !ok {
-				r.metaPeer.Send() <- &wamp.Error{
+				rsp = &wamp.Error{
 					Type:    msg.MessageType(),
 					Request: msg.Request,
 					Details: wamp.Dict{},
 					Error:   wamp.ErrNoSuchProcedure,
 				}
-				continue
+				break
 			}
 			rsp = metaProcHandler(msg)
 		case *wamp.Goodbye:
@@ -777,8 +777,15 @@ func (r *realm) metaProcedureHandler() {
 			return
 		default:
 			r.log.Println("Meta procedure received unexpected", msg.MessageType())
+			continue
 		}
-		r.metaPeer.Send() <- rsp
+		// When the realm is closing, the meta session stops reading. Do not
+		// wait for it then: the realm's close waits for this handler to exit.
+		select {
+		case r.metaPeer.Send() <- rsp:
+		case <-r.metaSess.RecvDone():
+			return
+		}
 	}
 }
 
